@@ -9,8 +9,10 @@ RULE = ("correspondence: shape_name / shape_representation / render (hooks) agai
         "an 11-character class alphabet, all printable pairs and random strings; compile_json (real files, real "
         "OUT_DIR / cwd, child process) against compile_json_m: return value, file path, file bytes, stdout lines. "
         "oracle on the implementation: two runs in one process and two processes give identical bytes; exactly one "
-        "file = header + returned text at $OUT_DIR/<name>.gen.shape.rs (the include macro's path, computed "
-        "independently); error / unreadable / empty inputs leave no file; equal shapes get equal names; a collision "
+        "file = header + returned text at the path include_json_shape! reads for that name (OBSERVED: harness/macroprobe "
+        "shadows include! to capture the macro's path expression for 11 collection names, and builds a crate whose build.rs "
+        "calls compile_json and whose modules include the result through the real macro; the model's macro_path is compared "
+        "with the captured path); error / unreadable / empty inputs leave no file; equal shapes get equal names; a collision "
         "search for different shapes with one name. non-trivial = a compile case that wrote a file for a "
         "container-rooted shape, or a shape of depth>=2; distinct = distinct case line")
 ASSUMPTIONS = ["member names restricted to printable ASCII for model correspondence (convert_case / codegen are modelled "
@@ -94,6 +96,46 @@ def run(ctx):
             n_known = 1
             ctx.fail("different shapes receive the same generated type name", "gen_name\t" + v[0],
                      {"name": n, "shapes": v[:4]}, known="KF4")
+    # ---------------------------------------------------------------- the include macro itself, observed
+    # (harness/macroprobe, rebuilt against /repo: `include!` shadowed so that the macro's path expression is
+    #  captured, and a real build.rs + include_json_shape! round trip as the documentation shows)
+    mp = genlib.macro_probe()
+    observed = mp["shadow"] or {}
+    ctx.notes["macro_probe"] = {"shadow_names": len(observed), "shadow_error": mp["shadow_error"], "real_build": mp["real"]}
+    def macro_reads(dirrel, name):
+        r = observed.get(name)
+        if r is None:
+            r = "$OUT/%s.gen.shape.rs" % name          # names outside the probe list: the documented template
+        return os.path.normpath(dirrel + r[len("$OUT"):]) if r.startswith("$OUT") else r
+    if observed:
+        pn = sorted(observed)
+        sc = ctx.corr_scopes.setdefault("path handed to include! by include_json_shape! = model macro_path", {"cases": 0, "disagreements": 0})
+        for n, m in zip(pn, ctx.model(["gen_macro_path\t%s\t%s" % (hexs("$OUT"), hexs(n)) for n in pn])):
+            sc["cases"] += 1
+            ctx.evaluations += 1
+            got = "TEXT " + hexs(observed[n])
+            if m != got:
+                sc["disagreements"] += 1
+                ctx.disagreements.append({"scope": "include macro path", "case": "gen_macro_path\t%s\t%s" % (hexs("$OUT"), hexs(n)),
+                                          "model": m, "impl": got})
+        il = ["compile\t%s\t%s\tT%s" % (hexs(n), hexs("out"), hexs('{"a":1,"b":[true]}')) for n in pn]
+        for n, l, r in zip(pn, il, ctx.impl(il)):
+            ci = genlib.parse_compile(r)
+            if ci["ret"] != "OK" or len(ci["files"]) != 1:
+                ctx.fail("compile_json of a plain object under a probe collection name did not write exactly one file", l, r[:200])
+            elif list(ci["files"])[0] != macro_reads("out", n):
+                ctx.fail("the include macro does not read the file compile_json writes for the same collection name", l,
+                         {"collection": n, "written": list(ci["files"])[0], "macro_reads": macro_reads("out", n)})
+            else:
+                ctx.nontrivial.add(l)
+    if mp["real"] is False:
+        # concrete input: the collections of harness/macroprobe/names.rs compiled by build.rs and included by the macro
+        ctx.fail("a crate whose build.rs calls compile_json and whose module uses include_json_shape!, as documented, does not build",
+                 "cd /verif/harness/macroprobe && cargo run --offline --features real",
+                 {"macro_could_not_read": mp["real_unreadable"][:6], "cargo": (mp["real_error"] or "")[-800:]})
+    elif not observed:
+        ctx.notes["macro_probe_note"] = ("the macro no longer expands to a plain include!(..): its path could not be captured; "
+                                         "the real build.rs + include_json_shape! round trip builds, so it reads what compile_json writes")
     # ---------------------------------------------------------------- compile_json
     sets = list(genlib.SOURCE_SETS) + genlib.doc_sources(ctx.rng, 60 if ctx.tier == "quick" else 1500)
     inf, raw = genlib.infer051(ctx, sets)
@@ -204,7 +246,7 @@ def run(ctx):
                     ctx.fail("file is not a header followed by the returned text", il, rel)
                 else:
                     headers.add(content[:len(content) - len(body)])
-                macro = os.path.normpath("%s/%s.gen.shape.rs" % (dirrel, name))
+                macro = macro_reads(dirrel, name)
                 if rel != macro:
                     plain = vlib.model_bools(["gen_plain\t%s\t%s" % (hexs("$R/" + dirrel), hexs(name))])[0]
                     ctx.fail("file written at a path the include macro does not read", il,
